@@ -88,6 +88,12 @@ Definition insert_pre (st : state2) (e : N) (fh sh : list N) (ts_ok : bool) : bo
   | _, _ => false
   end.
 
+(* the spare darts the call will use are non-null and free (clause "non-free or null spare darts ... are
+   reported as errors"): an Ok result on a state where this fails is a failure of the property *)
+Definition spares_ok (st : state2) (e : N) (fh sh : list N) : bool :=
+  let news := fh ++ (if b st 2 e =? 0 then [] else sh) in
+  forallb (fun x => negb (x =? 0) && (x <? nd st) && is_free2 (mem st) x) news.
+
 Definition oracle_insert (ts : list tok) : list (list tok) :=
   match split_step ts with
   | Some (pre, TZ 9%Z :: TZ _ :: kt, post) =>
@@ -104,7 +110,7 @@ Definition oracle_insert (ts : list tok) : list (list tok) :=
             | _, _ => [[TZ 2%Z]]
             end
           else [[TZ 2%Z]]
-        else if (cls =? 0)%Z && negb ok_t then [[TZ 0%Z; TZ 7%Z]] else [[TZ 2%Z]]
+        else if (cls =? 0)%Z && (negb ok_t || (usable st e && negb (spares_ok st e [nd1] [nd2]))) then [[TZ 0%Z; TZ 7%Z]] else [[TZ 2%Z]]
       | KInsertVertices e nds tsf =>
         let k := length tsf in
         let fh := firstn k nds in let sh := skipn k nds in
@@ -116,7 +122,8 @@ Definition oracle_insert (ts : list tok) : list (list tok) :=
             | _, _ => [[TZ 2%Z]]
             end
           else [[TZ 2%Z]]
-        else if (cls =? 0)%Z && (negb ok_t || negb (Nat.eqb (length nds) (2 * k))) then [[TZ 0%Z; TZ 7%Z]]
+        else if (cls =? 0)%Z && (negb ok_t || negb (Nat.eqb (length nds) (2 * k)) ||
+                                 (usable st e && negb (spares_ok st e fh sh))) then [[TZ 0%Z; TZ 7%Z]]
         else [[TZ 2%Z]]
       | _ => [[TZ 2%Z]]
       end
